@@ -53,6 +53,9 @@ def do_replay(rec):
     model = rec.get("model") or {}
     if lib in ("nodes", "edges") and fn == "__init__" and cls in INIT_CLASSES and isinstance(model.get("args"), dict):
         return replay_init(rec, cls, model["args"])
+    if lib == "edges" and cls in ("Buffer", "Fleet") and fn in ("can_put", "can_get", "occupancy", "get_occupancy") \
+            and model.get("entry"):
+        return replay_edge_query(rec, cls, fn, model)
     if lib != "stores" or cls not in CLASSES or not model.get("entry"):
         rec["replay_note"] = "no native replayer for this unit"
         return
@@ -326,6 +329,91 @@ def judge_init_post(obj, env, kw, clause):
     if clause == "mode-recorded":
         return getattr(obj, "mode", None) != kw.get("mode", "FIFO"), "mode %r recorded" % getattr(obj, "mode", None)
     return None, ""
+
+
+def replay_edge_query(rec, cls, fn, model):
+    """Buffer / Fleet can_put, can_get, occupancy: build the real edge, inject the model's store state into its real
+    store, call the query, and judge it by the C11 statement itself: can_x() is compared with whether a reserve_x()
+    issued in the very same state is granted at once (the probe reservation is made on the same injected state)."""
+    import importlib
+    import simpy
+    entry = model["entry"]
+    F = {k[len("inbuiltstore."):]: v for k, v in entry["fields"].items() if k.startswith("inbuiltstore.")}
+    heap = entry.get("heap", {})
+    env = simpy.Environment(initial_time=num(entry.get("now", 0)))
+    cap = F.get("capacity")
+    if not isinstance(cap, int) or cap < 1:
+        rec["replay_note"] = "model capacity %r cannot be built natively" % (cap,)
+        return
+    out = io.StringIO()
+    with contextlib.redirect_stdout(out):
+        if cls == "Buffer":
+            K = importlib.import_module("factorysimpy.edges.buffer").Buffer
+            mode = F.get("mode") if F.get("mode") in ("FIFO", "LIFO") else "LIFO"
+            edge = K(env, "edge", capacity=cap, delay=0, mode=mode)
+        else:
+            K = importlib.import_module("factorysimpy.edges.fleet").Fleet
+            edge = K(env, "edge", capacity=cap, delay=num(F.get("delay", 1)) or 1, transit_delay=num(F.get("transit_delay", 0)))
+        edge.src_node, edge.dest_node = Obj("node", "src"), Obj("node", "dest")
+    st = edge.inbuiltstore
+    events, items = {}, {}
+
+    def ev(i):
+        if i not in events:
+            e = simpy.Event(env)
+            e.resourcename = st
+            e.requesting_process = None
+            for attr in ("priority_to_put", "priority_to_get"):
+                v = heap.get(attr, {}).get(str(i))
+                setattr(e, attr, num(v) if v is not None else 0)
+            if heap.get("triggered", {}).get(str(i)) == "True":
+                e._ok = True
+                e._value = None
+            events[i] = e
+        return events[i]
+
+    def item(i):
+        if i not in items:
+            items[i] = Obj("item", i)
+        return items[i]
+    for name, v in F.items():
+        if not isinstance(v, list):
+            continue
+        if name in EVLISTS:
+            setattr(st, name, [ev(x) for x in v])
+        elif name == "items":
+            setattr(st, name, [(item(x[0]), num(x[1])) if isinstance(x, list) else item(x) for x in v])
+        elif name in ("ready_items", "reserved_items"):
+            setattr(st, name, [item(x) for x in v])
+    if "activate_fleet" in F and isinstance(F["activate_fleet"], int):
+        st.activate_fleet = ev(F["activate_fleet"])
+    native = {}
+    with contextlib.redirect_stdout(out):
+        try:
+            ans = getattr(edge, fn)()
+            native["answer"] = ans
+            if fn in ("can_put", "can_get"):
+                probe = st.reserve_put() if fn == "can_put" else st.reserve_get()
+                native["probe_reservation_granted_at_once"] = bool(probe.triggered)
+            else:
+                native["true_occupancy"] = len(st.items) + len(getattr(st, "ready_items", []))
+        except Exception as e:      # noqa
+            native["exception"] = type(e).__name__ + ": " + str(e)[:120]
+    rec["native"] = native
+    if "exception" in native:
+        rec["replayed"] = ".no-" in rec.get("obligation", "")
+        rec["replay_note"] = "the real query raised " + native["exception"]
+        return
+    if fn in ("can_put", "can_get"):
+        bad = bool(native["answer"]) != native["probe_reservation_granted_at_once"]
+        rec["replayed"] = bad
+        rec["replay_note"] = ("%s() answered %r but a reservation issued in the same state was %sgranted at once"
+                              % (fn, native["answer"], "" if native["probe_reservation_granted_at_once"] else "NOT ")) if bad \
+            else "the real query agrees with the probe reservation for this state"
+    else:
+        bad = native["answer"] != native["true_occupancy"]
+        rec["replayed"] = bad
+        rec["replay_note"] = "occupancy reported %r, items in transit + ready = %r" % (native["answer"], native["true_occupancy"])
 
 
 def norm(v):
